@@ -10,4 +10,70 @@ if ! (cd harness && cargo build --release --offline >build.log 2>&1); then
     tail -n 30 harness/build.log
     exit 2
 fi
-exec harness/target/release/verif-check "$@"
+ID="$1"
+TIER="$2"
+harness/target/release/verif-check "$@"
+RC=$?
+# Thorough tier of C03 / C05: a coverage-guided libFuzzer campaign on top of the generated
+# cases (same decoders and oracles, in-target). A missing nightly toolchain only skips it.
+if [ "$RC" = "0" ] && [ "$TIER" = "thorough" ] && { [ "$ID" = "C03" ] || [ "$ID" = "C05" ]; }; then
+    if [ "$ID" = "C03" ]; then TARGET=c03_session; MAXLEN=700; RUNS=${VERIF_FUZZ_RUNS:-400000}; else TARGET=c05_roundtrip; MAXLEN=160; RUNS=${VERIF_FUZZ_RUNS:-4000000}; fi
+    SEED=${VERIF_SEED:-1}; [ "$SEED" = "0" ] && SEED=1
+    WORK="$VERIF_ROOT/fuzz/fuzz/corpus-run/$TARGET.$$"
+    ART="$VERIF_ROOT/fuzz/fuzz/artifacts/$TARGET/"
+    rm -rf "$WORK"; mkdir -p "$WORK" "$ART"; rm -f "$ART"/crash-* "$ART"/timeout-* "$ART"/oom-* 2>/dev/null
+    cp "$VERIF_ROOT/corpus/$TARGET/"* "$WORK/" 2>/dev/null
+    if (cd fuzz && cargo +nightly fuzz build -O "$TARGET" >fuzz-build.log 2>&1); then
+        START=$(date +%s)
+        (cd fuzz && cargo +nightly fuzz run -O "$TARGET" "$WORK" -- -runs="$RUNS" -seed="$SEED" -len_control=0 -max_len="$MAXLEN" -timeout=20 -rss_limit_mb=4096 >fuzz-run.log 2>&1)
+        FRC=$?
+        END=$(date +%s)
+        FOUND=$(ls "$ART" 2>/dev/null | grep -E '^(crash|timeout|oom)-' | head -1)
+        python3 - "$ID" "$TARGET" "$RUNS" "$SEED" "$FRC" "$((END-START))" "$ART$FOUND" "$WORK" <<'PY'
+import json, sys, os, re
+ID, target, runs, seed, frc, secs, art, work = sys.argv[1:9]
+root = os.environ.get('VERIF_ROOT', '/verif')
+evp = '%s/evidence/%s.json' % (root, ID)
+ev = json.load(open(evp))
+log = ''
+try:
+    log = open('%s/fuzz/fuzz-run.log' % root, errors='replace').read()
+except Exception:
+    pass
+execs = 0
+m = re.findall(r'^#(\d+)\s', log, re.M)
+if m:
+    execs = max(int(x) for x in m)
+cov = re.findall(r'cov: (\d+)', log)
+fz = {'engine': 'libFuzzer (cargo-fuzz), in-target oracle', 'target': target, 'runs_requested': int(runs), 'executions': execs,
+      'seed': int(seed), 'exit': int(frc), 'wall_s': int(secs), 'edge_coverage': int(cov[-1]) if cov else None,
+      'corpus_files_at_end': len(os.listdir(work)) if os.path.isdir(work) else None}
+viol = None
+if os.path.isfile(art):
+    data = open(art, 'rb').read()
+    os.makedirs('%s/replays' % root, exist_ok=True)
+    rp = '%s/replays/%s_fuzz_%s.json' % (root, ID, os.path.basename(art))
+    if ID == 'C03':
+        rep = {'property': 'C03', 'check': 'sessions', 'tape_hex': data.hex(), 'clause': 'libFuzzer artifact ' + os.path.basename(art)}
+    else:
+        rep = {'property': 'C05', 'check': 'corpus', 'item': data.decode('utf-8', 'replace'), 'clause': 'libFuzzer artifact ' + os.path.basename(art)}
+    json.dump(rep, open(rp, 'w'), ensure_ascii=False, indent=1)
+    viol = rp
+    fz['artifact'] = os.path.basename(art)
+    ev['violations'] = ev.get('violations', 0) + 1
+ev['coverage']['fuzz_campaign'] = fz
+ev['coverage']['evaluations'] = ev['coverage'].get('evaluations', 0) + execs
+json.dump(ev, open(evp, 'w'), indent=1)
+print('%s thorough: libFuzzer %s: %d executions in %s s, exit %s' % (ID, target, execs, secs, frc))
+if viol:
+    print('VIOLATION property=%s replay=%s' % (ID, viol))
+    sys.exit(1)
+PY
+        PRC=$?
+        rm -rf "$WORK"
+        [ "$PRC" = "1" ] && exit 1
+    else
+        echo "$ID thorough: libFuzzer stage skipped (cargo +nightly fuzz build failed, see fuzz/fuzz-build.log); the generated-case part decided the property"
+    fi
+fi
+exit $RC
